@@ -15,8 +15,10 @@ THEOREMS = [_T + n for n in (
     'C08_witness_isnull',
     'C08_T83_limit_left', 'C08_useLimit_two_tables', 'C08_useLimit_group_by', 'C08_useLimit_third',
     'C08_witness_limit_inner', 'C08_plan_limit_inner', 'C08_witness_limit_group',
-    'C08_partial', 'C08_partial_left', 'C08_partial_limit', 'C08_partial_model', 'C08_partial_model_nolimit', 'C08_partial_model_inner', 'C08_partial_model_left_limit',
-    'C08_witness_limit_where', 'C08_T83_limit_left_left', 'C08_T81_third_table', 'C08_union_all_compositional', 'C08_union_distinct_compositional',
+    'C08_partial', 'C08_partial_left', 'C08_partial_limit', 'C08_partial_model', 'C08_partial_model_nolimit', 'C08_partial_model_inner', 'C08_partial_model_left', 'C08_partial_model_left_limit',
+    'C08_witness_limit_where', 'C08_regression_limit_where', 'C08_limit_pushed_when_where_applied',
+    'C08_limit_inner_sound_if_total', 'C08_limit_inner_sound_if_one_to_one', 'C08_offset_left_sound_if_at_most_one',
+    'C08_witness_offset_left', 'C08_T83_limit_left_left', 'C08_T81_third_table', 'C08_union_all_compositional', 'C08_union_distinct_compositional',
     'C08_cte_compositional', 'C08_not_full')]
 ASSUME = [
     'SQL semantics of the theorems = MindsVerif.Sem (Int|Str|Null, 3-valued logic, list-of-rows tables, joins of every '
@@ -31,7 +33,7 @@ ASSUME = [
     'two-table fragment (3-way joins, IN/NOT IN subqueries, UNION, CTE, nested selects, GROUP BY, api integrations) are '
     'covered by the probe only',
     'C08_partial_model (execPlan (plan q) db = evalQuery q db) covers every two-table query (all join kinds, any WHERE '
-    'tree, LIMIT) satisfying the decidable side condition Sem.planSound (= limitSound: every query without LIMIT satisfies it); the driver reports planSound per case and the '
+    'tree, LIMIT) satisfying the decidable side condition Sem.planSound (= LIMIT not pushed or LEFT join: every query without LIMIT and every LEFT-join query satisfies it); the driver reports planSound per case and the '
     'run checks that the REAL plan is right on every such case',
 ]
 
@@ -498,7 +500,7 @@ def run(chk):
     chk.samples.append(dict(theorem='C08_partial: (innerJoin on (L.filter pL) ((R.filter pR).filter (semi cR (distinct '
                                     '((L.filter pL).map cL))))).filter w = (innerJoin on L R).filter w  given ON => NULL-aware key '
                                     'equality and w => pL, w => pR'))
-    chk.samples.append(dict(theorem='C08_partial_model: planSound q = true -> execPlan (plan q) db = evalQuery q db   (planSound = limitSound: every query without LIMIT, all join kinds, any WHERE tree; LIMIT below LEFT joins)'))
+    chk.samples.append(dict(theorem='C08_partial_model: planSound q = true -> execPlan (plan q) db = evalQuery q db   (planSound q = (plan q).limit0.isNone || q.kind.isLeft)'))
     chk.samples.append(dict(theorem='C08_witness_limit_inner: execPlan (plan limQ) limDB != evalQuery limQ limDB  (inner join LIMIT 1)'))
     return chk.finish(assumptions=ASSUME, extra=dict(notes=chk.notes[:20]))
 
